@@ -22,9 +22,14 @@ type Clause struct {
 	Portable bool
 }
 
+var currentTier = "quick"
+
 func (c Clause) inMode(m string) bool {
 	if len(c.Modes) == 0 {
 		return true
+	}
+	if len(c.Modes) == 1 && c.Modes[0] == "thorough-tier" {
+		return currentTier == "thorough"
 	}
 	for _, x := range c.Modes {
 		if x == m {
@@ -158,6 +163,10 @@ func mkClause(rest, where string) (Clause, error) {
 		if m[1] == "portable" {
 			c.Modes = nil
 			c.Portable = true
+		}
+		if m[1] == "thorough" {
+			// proved (and available to callers) in the thorough tier only: too slow for the every-change check
+			c.Modes = []string{"thorough-tier"}
 		}
 		rest = m[2]
 	}
